@@ -382,7 +382,9 @@ fn run(ctx: &RunCtx) {
                 st.class("config_skipped_known_finding");
                 continue;
             }
-            if avoid_attr && matches!(shift, Shift::AppendStart(_)) && lex(&source, Mode::Luau).map(|l| l.tokens.first().map(|t| t.text.starts_with('@')).unwrap_or(false)).unwrap_or(false) {
+            // rules may remove the statements in front of an attributed function, which then becomes
+            // the first statement: any attribute in the file is enough to trigger the known finding
+            if avoid_attr && matches!(shift, Shift::AppendStart(_)) && lex(&source, Mode::Luau).map(|l| l.tokens.iter().any(|t| t.text.starts_with('@'))).unwrap_or(false) {
                 st.class("config_skipped_known_finding");
                 continue;
             }
